@@ -6,14 +6,20 @@ Generates lean/CelloGen/Str.lean:
     (`strlen(...)` sub-expressions become the named arguments), and `params : Cello.Str.Params` bundling them;
   * `shape` — for every modelled function, the libc calls / terminator stores it makes, in source order,
     whitespace-free; `shapeModelled` — what Cello/Str.lean was written against.
-The theorems `C16_current_source` and `C16_source_shape_as_modelled` are stated about these definitions.
+  * `advLit advPct advStr advInt advFlt advChr advPtr showPos` — the position updates of `print_to_with` (src/Show.c):
+    for every `format_to` call the statement that moves `pos` afterwards, translated to `Nat` arithmetic over
+    `pos`, `off` (the value `format_to` returned) and `width` (format characters consumed by the branch), and the
+    statement that takes the result of `show_to` in the `%$` branch; `posParams : Cello.Str.PosParams` bundling them;
+    `printConvSet` — the `strchr` set that ends a specification.
+The theorems `C16_current_source`, `C16_current_source_positions` and `C16_source_shape_as_modelled` are stated about
+these definitions.
 """
 import re
 from ctext import *
 from gen import HEADER, lean_str, lean_list
 
 CALLS = ('realloc', 'calloc', 'strcpy', 'strcat', 'memset', 'memmove', 'strstr', 'strcmp', 'hash_data',
-         'vsnprintf', 'vsprintf', 'strncpy', 'strncat', 'memcpy', 'malloc', 'free', 'sprintf', 'snprintf', 'strlen')
+         'vsnprintf', 'vsprintf', 'vsscanf', 'strncpy', 'strncat', 'memcpy', 'malloc', 'free', 'sprintf', 'snprintf', 'strlen')
 
 def preprocess(body, defined=(), true_conds=('CELLO_ALLOC_CHECK == 1', 'CELLO_MEMORY_CHECK == 1')):
     """resolve #if/#ifdef/#elif/#else/#endif line by line: names in `defined` are defined, the listed
@@ -48,11 +54,117 @@ def preprocess(body, defined=(), true_conds=('CELLO_ALLOC_CHECK == 1', 'CELLO_ME
 
 def nows(s): return re.sub(r'\s+', '', s)
 
+def nows_code(s):
+    """remove white space outside string / character literals"""
+    out = []; i = 0; n = len(s)
+    while i < n:
+        c = s[i]
+        if c in '"\'':
+            j = i + 1
+            while j < n and s[j] != c:
+                if s[j] == '\\': j += 1
+                j += 1
+            out.append(s[i:j+1]); i = j + 1
+        elif c.isspace(): i += 1
+        else: out.append(c); i += 1
+    return ''.join(out)
+
+def def_body(src, name, what):
+    """body of the definition of `name` (a line that starts with its return type), skipping uses inside doc strings"""
+    m = re.search(r'^(?:static\s+)?\w[\w\s\*]*\b' + re.escape(name) + r'\s*\(', src, flags=re.M)
+    if not m: raise ExtractError(f'{what}: definition of {name} not found')
+    return func_body(src[m.start():], name)
+
+# ---- position bookkeeping of print_to_with (src/Show.c)
+def enclosing_block(body, i):
+    """(start, end) of the innermost `{…}` of `body` that contains index i (start at `{`, end just after `}`)"""
+    depth = 0; j = i
+    while j >= 0:
+        c = body[j]
+        if c == '}': depth += 1
+        elif c == '{':
+            if depth == 0: return j, balanced(body, j, '{', '}')
+            depth -= 1
+        j -= 1
+    raise ExtractError('print_to_with: a format_to call outside any block')
+
+def condition_before(body, start):
+    """text of the `if (…)` whose block starts at `start`"""
+    k = start - 1
+    while k >= 0 and body[k].isspace(): k -= 1
+    if k < 0 or body[k] != ')': raise ExtractError('print_to_with: a format_to call in a block that is not the body of an `if`')
+    depth = 0; j = k
+    while j >= 0:
+        if body[j] == ')': depth += 1
+        elif body[j] == '(':
+            depth -= 1
+            if depth == 0: break
+        j -= 1
+    if not re.search(r'\bif\s*$', body[:j]): raise ExtractError('print_to_with: a format_to call in a block that is not the body of an `if`')
+    return nows_code(body[j:k+1])
+
+def pos_expr(op, expr, subst):
+    """`pos <op> expr;` -> Lean Nat expression over pos/off/width (or pos/ret)"""
+    e = nows(re.sub(r'\(\s*(int|size_t|long)\s*\)', '', expr))
+    for c_text, name in sorted(subst.items(), key=lambda kv: -len(kv[0])):
+        e = e.replace(nows(c_text), f' {name} ')
+    toks = re.findall(r'[A-Za-z_]\w*|\d+|[-+*()]|\S', e)
+    for t in toks:
+        if re.fullmatch(r'\d+|[-+*()]', t): continue
+        if t in ('pos', 'off', 'width', 'ret'): continue
+        raise ExtractError(f'print_to_with: position update `pos {op} {expr.strip()}`: unexpected token `{t}`')
+    e = ' '.join(toks)
+    return f'pos + ({e})' if op == '+=' else e
+
+def positions(repo):
+    src = read(f'{repo}/src/Show.c')
+    body = def_body(src, 'print_to_with', 'Show.c')
+    if not re.search(r'return\s+pos\s*;\s*$', body.strip()): raise ExtractError('print_to_with: does not end in `return pos;`')
+    found = {}; texts = {}
+    for m in re.finditer(r'\bint\s+(\w+)\s*=\s*format_to\s*\(', body):
+        var = m.group(1)
+        call_end = balanced(body, m.end() - 1)
+        args = [nows_code(a) for a in split_top(body[m.end():call_end - 1])]
+        bs, be = enclosing_block(body, m.start())
+        cond = condition_before(body, bs)
+        if args[:2] != ['out', 'pos']: raise ExtractError(f'print_to_with: format_to({", ".join(args)}): expected (out, pos, …)')
+        rest = args[2:]
+        if rest == ['fmt_buf']: br = 'Lit'; width = {'fmt-start': 'width'}
+        elif rest == ['"%%"']: br = 'Pct'; width = {'fmt-start': '0'}
+        elif rest == ['fmt_buf', 'c_str(a)']: br = 'Str'; width = {'fmt-start': '(width - 1)'}
+        elif rest == ['fmt_buf', 'c_float(a)']: br = 'Flt'; width = {'fmt-start': '(width - 1)'}
+        elif rest == ['fmt_buf', 'a']: br = 'Ptr'; width = {'fmt-start': '(width - 1)'}
+        elif rest == ['fmt_buf', 'c_int(a)']:
+            br = 'Chr' if "'c'" in cond else 'Int'; width = {'fmt-start': '(width - 1)'}
+        else: raise ExtractError(f'print_to_with: unexpected format_to({", ".join(args)})')
+        if br in found: raise ExtractError(f'print_to_with: two format_to calls for branch {br}')
+        ups = re.findall(r'\bpos\s*(\+=|-=|\*=|=)(?!=)\s*([^;]+);', body[call_end:be])
+        if len(ups) != 1: raise ExtractError(f'print_to_with, branch {br}: expected exactly one assignment to `pos` after format_to, found {len(ups)}')
+        op, expr = ups[0]
+        if op not in ('+=', '='): raise ExtractError(f'print_to_with, branch {br}: `pos {op} …`')
+        sub = dict(width); sub[var] = 'off'
+        found[br] = pos_expr(op, expr, sub); texts[br] = f'pos {op} {expr.strip()};'
+    for br in ('Lit', 'Pct', 'Str', 'Int', 'Flt', 'Chr', 'Ptr'):
+        if br not in found: raise ExtractError(f'print_to_with: no format_to call found for branch {br}')
+    ms = re.findall(r'\bpos\s*(\+=|-=|=)(?!=)\s*([^;]*\bshow_to\s*\([^;]*);', body)
+    if len(ms) != 1: raise ExtractError(f'print_to_with: expected exactly one `pos = show_to(…)`, found {len(ms)}')
+    op, expr = ms[0]
+    if op not in ('+=', '='): raise ExtractError(f'print_to_with: `pos {op} show_to(…)`')
+    k = re.search(r'\bshow_to\s*\(', expr)
+    kend = balanced(expr, k.end() - 1)
+    if [nows(a) for a in split_top(expr[k.end():kend - 1])] != ['a', 'out', 'pos']:
+        raise ExtractError('print_to_with: show_to is not called as show_to(a, out, pos)')
+    found['Show'] = pos_expr(op, expr[:k.start()] + ' ret ' + expr[kend:], {}); texts['Show'] = f'pos {op} {expr.strip()};'
+    mc = re.search(r'while\s*\(\s*not\s+strchr\s*\(\s*"([^"]*)"\s*,\s*\*fmt\s*\)\s*\)', body)
+    if not mc: raise ExtractError('print_to_with: `while(not strchr("…", *fmt))` not found')
+    return found, texts, [ord(c) for c in mc.group(1)]
+
 def outer_calls(body):
     """libc calls and terminator stores in source order (outermost calls only; strlen only when not nested in another
     listed call), whitespace-free"""
     items = []; i = 0
-    pat = re.compile(r'\b(' + '|'.join(CALLS) + r')\s*\(|(s->val\s*\[[^\]]*\]\s*=\s*[^;]+);|\b(count)\s*=\s*([^;]+);|\bif\s*\(\s*(n\s*[<>]=?\s*m)\s*\)')
+    pat = re.compile(r'\b(' + '|'.join(CALLS) + r')\s*\(|(s->val\s*\[[^\]]*\]\s*=\s*[^;]+);|\b(count)\s*=\s*([^;]+);|\bif\s*\(\s*(n\s*[<>]=?\s*m)\s*\)'
+                     r'|\b(if\s*\(\s*size\s*<=?\s*-?\d+\s*\)\s*\{[^{}]*\})|\b(char\s*\*\s*sub\s*=\s*[^;]+;)')
     while True:
         m = pat.search(body, i)
         if not m: break
@@ -63,8 +175,12 @@ def outer_calls(body):
             items.append(nows(m.group(2))); i = m.end()
         elif m.group(3):
             items.append('count=' + nows(m.group(4))); i = m.end()
-        else:
+        elif m.group(5):
             items.append('if(' + nows(m.group(5)) + ')'); i = m.end()
+        elif m.group(6):
+            items.append(nows(m.group(6))); i = m.end()          # `if (size < 0) { return size; }`: libc rejected the format
+        else:
+            items.append(nows(m.group(7))); i = m.end()          # `char* sub = c_str(obj);`: the operand must have a C string
     return items
 
 def arg_of(call, idx):
@@ -91,9 +207,12 @@ SHAPE_MODELLED = [
     ('String_Clear', ['realloc(s->val,1)', "s->val[0]='\\0'"]),
     ('String_Concat', ['realloc(s->val,strlen(s->val)+strlen(c_str(obj))+1)', 'strcat(s->val,c_str(obj))']),
     ('String_Resize', ['realloc(s->val,n+1)', 'if(n>m)', 'memset(&s->val[m],0,n-m)', "s->val[n]='\\0'"]),
-    ('String_Rem', ['strstr(String_C_Str(self),c->c_str(obj))', 'count=strlen(pos)-strlen(c->c_str(obj))+1',
-                    'memmove((char*)pos,pos+strlen(c->c_str(obj)),count)']),
-    ('String_Format_To', ['vsnprintf(NULL,0,fmt,va_tmp)', 'realloc(s->val,pos+size+1)', 'vsprintf(s->val+pos,fmt,va)']),
+    # after e60e6ec: the operand's C string is taken first (c_str raises ClassError for an object without C_Str)
+    ('String_Rem', ['char*sub=c_str(obj);', 'strstr(String_C_Str(self),sub)', 'count=strlen(pos)-strlen(sub)+1',
+                    'memmove((char*)pos,pos+strlen(sub),count)']),
+    # after a626877: a negative size (libc rejects the format) is returned before anything is touched
+    ('String_Format_To', ['vsnprintf(NULL,0,fmt,va_tmp)', 'if(size<0){returnsize;}', 'realloc(s->val,pos+size+1)', 'vsprintf(s->val+pos,fmt,va)']),
+    ('String_Format_From', ['vsscanf(s->val+pos,fmt,va)']),
     ('String_Len', ['strlen(s->val)']),
     ('String_Cmp', ['strcmp(String_C_Str(self),c_str(obj))']),
     ('String_Mem', ['strstr(String_C_Str(self),c->c_str(obj))']),
@@ -108,7 +227,19 @@ SHAPE_MODELLED = [
     ('resize', ['method(self,Resize,resize,n);']), ('mem', ['returnmethod(self,Get,mem,key);']),
     ('rem', ['method(self,Get,rem,key);']), ('len', ['returnmethod(self,Len,len);']),
     ('eq', ['returncmp(self,obj)is0;']),
+    # what String_Format_To returns (the `off` of print_to_with), and the Show instances / entry points that the model of
+    # the formatted-write path mirrors (Cello.Str.showVal, emit): whole bodies, white space outside literals removed
+    ('String_Format_To.return', ['size', 'vsprintf(s->val+pos,fmt,va)']),
+    ('String_Show', ['structString*s=self;pos=print_to(out,pos,"\\"",self);char*v=s->val;while(*v){switch(*v){case\'\\a\':pos=print_to(out,pos,"\\\\a");break;case\'\\b\':pos=print_to(out,pos,"\\\\b");break;case\'\\f\':pos=print_to(out,pos,"\\\\f");break;case\'\\n\':pos=print_to(out,pos,"\\\\n");break;case\'\\r\':pos=print_to(out,pos,"\\\\r");break;case\'\\t\':pos=print_to(out,pos,"\\\\t");break;case\'\\v\':pos=print_to(out,pos,"\\\\v");break;case\'\\\\\':pos=print_to(out,pos,"\\\\\\\\");break;case\'\\\'\':pos=print_to(out,pos,"\\\\\'");break;case\'\\"\':pos=print_to(out,pos,"\\\\\\"");break;case\'\\?\':pos=print_to(out,pos,"\\\\?");break;default:pos=print_to(out,pos,"%c",$I(*v));}v++;}returnprint_to(out,pos,"\\"",self);']),
+    ('Int_Show', ['returnprint_to(output,pos,"%li",self);']),
+    ('Tuple_Show', ['structTuple*t=self;pos=print_to(output,pos,"tuple(",self);size_ti=0;while(t->items[i]isntTerminal){pos=print_to(output,pos,"%$",t->items[i]);if(t->items[i+1]isntTerminal){pos=print_to(output,pos,", ");}i++;}returnprint_to(output,pos,")");']),
+    ('show_to', ['if(selfisNULL){returnprint_to(out,pos,"<NULL>");}structShow*s=instance(self,Show);if(sands->show){returns->show(self,out,pos);}returnprint_to(out,pos,"<\'%s\' At 0x%p>",type_of(self),self);']),
+    ('format_to', ['va_listva;va_start(va,fmt);intret=format_to_va(self,pos,fmt,va);va_end(va);returnret;']),
+    ('format_to_va', ['returnmethod(self,Format,format_to,pos,fmt,va);']),
+    ('print_to', ['print_to_with(out,pos,fmt,tuple(__VA_ARGS__))']),
 ]
+WHOLE = {'String_Show': 'String.c', 'Int_Show': 'Num.c', 'Tuple_Show': 'Tuple.c', 'show_to': 'Show.c', 'format_to': 'Show.c',
+         'format_to_va': 'Show.c'}
 GENERIC = {'append': 'Concat.c', 'concat': 'Concat.c', 'resize': 'Resize.c', 'mem': 'Get.c', 'rem': 'Get.c', 'len': 'Len.c', 'eq': 'Cmp.c'}
 
 def gen_str(repo):
@@ -121,6 +252,19 @@ def gen_str(repo):
             if not m: raise ExtractError('`var String = Cello(String, …)` not found')
             inner = src[m.end():balanced(src, m.end() - 1) - 1]
             shape.append((fn, [nows(x) for x in split_top(inner) if nows(x).startswith('Instance(') and not re.match(r'Instance\((Doc|Show),', nows(x))]))
+            continue
+        if fn == 'String_Format_To.return':
+            shape.append((fn, [nows(r) for r in re.findall(r'\breturn\s+([^;]+);', bodies['String_Format_To'])]))
+            continue
+        if fn == 'print_to':
+            hdr = read(f'{repo}/include/Cello.h')
+            mm = re.search(r'#\s*define\s+print_to\s*\(\s*out\s*,\s*pos\s*,\s*fmt\s*,\s*\.\.\.\s*\)\s*\\?\s*\n?\s*([^\n]+)', hdr)
+            if not mm: raise ExtractError('Cello.h: `#define print_to(out, pos, fmt, ...)` not found')
+            shape.append((fn, [nows(mm.group(1))]))
+            continue
+        if fn in WHOLE:
+            wsrc = read(f'{repo}/src/{WHOLE[fn]}')
+            shape.append((fn, [nows_code(def_body(wsrc, fn, WHOLE[fn]))]))
             continue
         if fn in GENERIC:
             gsrc = read(f'{repo}/src/{GENERIC[fn]}')
@@ -151,12 +295,18 @@ def gen_str(repo):
     if not re.search(r'int\s+size\s*=\s*vsnprintf\s*\(\s*NULL\s*,\s*0\s*,', bodies['String_Format_To']):
         raise ExtractError('String_Format_To: `int size = vsnprintf(NULL, 0, …` not found')
     cnt = find('String_Rem', 'count=')[len('count='):]
-    rem = to_nat(cnt, {'strlen(String_C_Str(self))': 'ls', 'strlen(pos)': 'lp', 'strlen(c->c_str(obj))': 'lo'}, ('ls', 'lp', 'lo'))
+    rem = to_nat(cnt, {'strlen(String_C_Str(self))': 'ls', 'strlen(pos)': 'lp', 'strlen(c->c_str(obj))': 'lo', 'strlen(sub)': 'lo'}, ('ls', 'lp', 'lo'))
     if not re.search(r'if\s*\(\s*pos\s+is\s+NULL\s*\)\s*\{\s*throw\s*\(\s*ValueError', bodies['String_Rem']):
         raise ExtractError('String_Rem: `if (pos is NULL) { throw(ValueError …` not found')
+    pos, pos_txt, conv = positions(repo)
     def shape_lean(sh):
         return lean_list(['(' + lean_str(fn) + ', ' + lean_list([lean_str(c) for c in cs]) + ')' for fn, cs in sh])
+    adv_defs = '\n'.join(
+        f"/-- src/Show.c print_to_with, {what}: `{pos_txt[br]}` -/\ndef adv{br} (pos off width : Nat) : Nat := {pos[br]}"
+        for br, what in (('Lit', 'literal run'), ('Pct', '`%%`'), ('Str', '`%s`'), ('Int', '`%d %i %o %u %x %X`'),
+                         ('Flt', '`%f %e %g %a`'), ('Chr', '`%c`'), ('Ptr', '`%p`')))
     return HEADER + f"""import Cello.Str
+set_option linter.unusedVariables false
 namespace CelloGen.Str
 
 /-- `String_New` without arguments: `{ca}` → nmemb * size -/
@@ -177,6 +327,19 @@ def remCount (ls lp lo : Nat) : Nat := {rem}
 def params : Cello.Str.Params :=
   {{ newEmptySize := newEmptySize, assignSize := assignSize, clearSize := clearSize, concatSize := concatSize,
      resizeSize := resizeSize, formatSize := formatSize, remCount := remCount }}
+
+/-! position bookkeeping of `print_to_with`: `off` = the value `format_to` returned, `width` = format characters consumed -/
+{adv_defs}
+/-- src/Show.c print_to_with, `%$`: `{pos_txt['Show']}` with `ret` = the value `show_to` returned -/
+def showPos (pos ret : Nat) : Nat := {pos['Show']}
+
+def posParams : Cello.Str.PosParams :=
+  {{ adv := fun br => match br with
+      | .lit => advLit | .pct => advPct | .str => advStr | .int => advInt | .flt => advFlt | .chr => advChr | .ptr => advPtr,
+     shw := showPos }}
+
+/-- the `strchr` set that ends a specification in `print_to_with` -/
+def printConvSet : List UInt8 := {lean_list([str(c) for c in conv])}
 
 /-- libc calls / terminator stores of each modelled function, in source order (whitespace removed) -/
 def shape : List (String × List String) := {shape_lean(shape)}
